@@ -89,8 +89,22 @@ func init() {
 	}
 	c02 := &simCheckSpec{Prop: "C02", Oracles: []string{"commit", "leader"},
 		Scenarios: func(t string) []*simScenario {
+			// focused scenarios first (small fault alphabets that complete their bound quickly), then the broad ones
+			d := 2
+			if t == "thorough" {
+				d = 3
+			}
+			fig := scenRepl(replSeedByName("figure8"), d, true, 0, 0, 6)
+			fig.Name = "repl-figure8-net"
+			fig.Menu = simMenu{Cuts: true, Drops: true}
 			// "across ... snapshots": delayed / duplicated InstallSnapshot requests on a lagging follower
-			return append(replScenarios(t, true), scenSnap(snapSeeds[snapSeedIndex("lagging")], 2, true, false, 1))
+			snapNet := scenSnap(snapSeeds[snapSeedIndex("lagging")], d, true, false, 0)
+			snapNet.Name = "snap-lagging-net"
+			snapNet.Menu = simMenu{Drops: true, Clients: []string{"update"}, MaxUpdates: 1, ClientNodes: []int{0}}
+			snapNet.Final = "adversary"
+			out := []*simScenario{fig, snapNet}
+			out = append(out, replScenarios(t, true)...)
+			return append(out, scenSnap(snapSeeds[snapSeedIndex("lagging")], 2, true, false, 1))
 		}, Budget: replBudget,
 		MustReach: []string{"commits"}}
 	vkChecks["C02"] = func(args []string) int { return runSimCheck(c02, args) }
